@@ -386,6 +386,11 @@ def c_hmap_insert(ex, st, callee, a):
     return res
 
 
+@contract(r'^HashMap::<std::string::String, Box<dyn erased_serde::Serialize>>::len$', r'^HashMap::<std::string::String, Box<dyn for<.*>>::len$', r'^HashMap::<std::string::String, serde_json::Value>::len$')
+def c_map_len(ex, st, callee, a):
+    n = Int('map_len%d' % next(fresh)); st.pc.append(n >= 0); return [(None, n)]        # only used as a capacity hint by the code in reach; the count itself is not modelled
+
+
 @contract(r'^HashMap::<std::string::String, Box<dyn erased_serde::Serialize>>::remove::<')
 def c_hmap_remove(ex, st, callee, a):
     m = deref(st, a[0]); k = as_str(st, a[1])
@@ -456,7 +461,7 @@ def c_hmap_ref_iter(ex, st, callee, a):
     return [(None, ('hiter', a[0], m[3], 0, 'claims'))]
 
 
-@contract(r'^<&HashMap<std::string::String, Box<dyn for<.*>> as IntoIterator>::into_iter$')
+@contract(r'^<&HashMap<std::string::String, Box<dyn for<.*>> as IntoIterator>::into_iter$', r'^<&HashMap<std::string::String, serde_json::Value> as IntoIterator>::into_iter$')
 def c_vmap_ref_iter(ex, st, callee, a):
     m = deref(st, a[0])
     # distinct keys in insertion order
@@ -853,7 +858,12 @@ def c_to_lower(ex, st, callee, a): return [(None, ascii_lower(as_str(st, a[0])))
 
 
 @contract(r'^core::str::<impl str>::(trim|trim_start|trim_end)$')
-def c_trim(ex, st, callee, a): return [(None, str_trim(as_str(st, a[0])))]
+def c_trim(ex, st, callee, a):
+    x = as_str(st, a[0])
+    if is_string_value(x) and all(ord(c) < 128 for c in x.as_string()):       # a literal: computed (ASCII white space as in Rust's White_Space restricted to ASCII)
+        t = x.as_string(); ws = ' \t\n\r\x0b\x0c'; kind = callee.split('::')[-1]
+        return [(None, StringVal(t.strip(ws) if kind == 'trim' else (t.lstrip(ws) if kind == 'trim_start' else t.rstrip(ws))))]
+    return [(None, str_trim(x))]
 
 
 def text_lemmas(assertions):
